@@ -697,7 +697,7 @@ func (r *soloRun) step(op []interface{}) (Step, error) {
 		}
 		w := 5 * time.Millisecond
 		if expect > 0 {
-			w = 2 * time.Second
+			w = 600 * time.Millisecond
 		}
 		st.Ev = r.events(expect, w)
 		if !r.dead && len(st.Ev) == 0 && r.node.VerifPool().Hashes != before {
@@ -748,9 +748,15 @@ func (r *soloRun) step(op []interface{}) (Step, error) {
 		}()
 		select {
 		case <-done:
-			st.R = []uint64{h, 0}
+			still := uint64(0)
+			for _, hs := range hashes {
+				if r.node.VerifPoolHas(hs) {
+					still++
+				}
+			}
+			st.R = []uint64{h, 0, still}
 		case <-time.After(200 * time.Millisecond):
-			st.R = []uint64{h, 2} // the main loop is blocked on proposeC
+			st.R = []uint64{h, 2, 0} // the main loop is blocked on proposeC
 		}
 	case "crash":
 		r.node.Stop()
